@@ -348,3 +348,25 @@ def show_poly(p, limit=4):
     items = sorted(p.items(), key=repr)
     txt = " ".join("%+d*%s" % (c, "*".join(show_atom(a) for a in m) or "1") for m, c in items[:limit])
     return (txt or "0") + (" ..." if len(items) > limit else "")
+
+
+def visited_tuples(pieces, terms_of, env):
+    """for every iteration of every piece (a statement with its counted loop nest and guards) under the concrete dimensions
+    in env: the tuple of integer values of terms_of(piece).  The way to decide "these calls visit rows 0..R-1 exactly once,
+    source row = destination row" for any loop structure (flat, block-wise, running index or pointer).  NotEvaluable when
+    a bound, a guard or a term has no value."""
+    out = []
+    for p in pieces:
+        ts = [sym.trip_counts_nonneg(t) for t in terms_of(p)]
+        loops = [dict(l, lo=sym.trip_counts_nonneg(l["lo"]), hi=sym.trip_counts_nonneg(l["hi"])) if "var" in l else l for l in p["loops"]]
+        for e2 in iterate(loops, env):
+            gs = [eval_term(g, e2) for g in p["guards"]]
+            if None in gs:
+                raise NotEvaluable("guard %s at line %s" % (sym.show(p["guards"][gs.index(None)])[:80], p.get("line")))
+            if not all(gs):
+                continue
+            vals = tuple(eval_term(t, e2) for t in ts)
+            if None in vals:
+                raise NotEvaluable("term %s at line %s" % (sym.show(ts[vals.index(None)])[:80], p.get("line")))
+            out.append(vals)
+    return out
